@@ -353,7 +353,7 @@ pub struct Tier {
 
 pub fn tier(name: &str) -> Tier {
     match name {
-        "thorough" => Tier { generated: 2000, models: 700, enumerate_cap: 2000, random_plans: 40 },
+        "thorough" => Tier { generated: 5000, models: 2000, enumerate_cap: 3000, random_plans: 40 },
         _ => Tier { generated: 220, models: 80, enumerate_cap: 600, random_plans: 8 },
     }
 }
